@@ -459,14 +459,20 @@ func (x *Exec) convert(from, to types.Type, v Value) Value {
 			if i.S == nil {
 				return Int{W: w, Signed: sg, C: uint64(int64(i.C)) & mask(w)}
 			}
-			if !sg && w == 64 {
-				unsupported("symbolic float -> uint64")
-			}
 			// gc/amd64: out of range and NaN give 0x8000000000000000
 			ft := i.S
-			lo := tt.FCmp(OpFLe, tt.FConst(-9223372036854775808.0), ft)
-			hi := tt.FCmp(OpFLt, ft, tt.FConst(9223372036854775808.0))
-			r := tt.Ite(tt.And(lo, hi), tt.FloatToInt(ft, 64), tt.Const(64, 1<<63))
+			sconv := func(ft *Term) *Term {
+				lo := tt.FCmp(OpFLe, tt.FConst(-9223372036854775808.0), ft)
+				hi := tt.FCmp(OpFLt, ft, tt.FConst(9223372036854775808.0))
+				return tt.Ite(tt.And(lo, hi), tt.FloatToInt(ft, 64), tt.Const(64, 1<<63))
+			}
+			if !sg && w == 64 {
+				// gc/amd64: below 2^63 the signed conversion; otherwise convert x-2^63 and flip the top bit
+				two63 := tt.FConst(9223372036854775808.0)
+				r := tt.Ite(tt.FCmp(OpFLt, ft, two63), sconv(ft), tt.Bin(OpBvXor, sconv(tt.FBin(OpFSub, ft, two63)), tt.Const(64, 1<<63)))
+				return x.mkInt(w, sg, r)
+			}
+			r := sconv(ft)
 			return x.mkInt(w, sg, tt.Resize(r, w, true))
 		case Ptr:
 			unsupported("pointer -> integer conversion")
